@@ -4,29 +4,27 @@ import SqVerif.Adjacency
 namespace SqVerif.Gen.EprGuards
 open SqVerif.Adjacency
 
-/- cmd_epr, statement by statement (remote-name variable: NOT FOUND)
-     unrecog       line 406  node_names = list(self.factory.qnodeos_net.hostDict)
-     unrecog       line 407  if not 0 <= remote_node_id < len(node_names):
-     other         line 409  remote_node_name = node_names[remote_node_id]
-     other         line 411  self._logger.debug(f'Creating EPR with {remote_node_name} on socket {e
-     unrecog       line 414  if self.name == remote_node_name:
-     unrecog       line 418  if not self.factory.is_adjacent(remote_node_name):
-     other         line 424  second_qubit_id = -(1 + qubit_id)
-     cmdNew        line 425  for q_id in [qubit_id, second_qubit_id]:
-     cmdNew        line 425  for q_id in [qubit_id, second_qubit_id]:
-     unrecog       line 431  h_gate = self._get_simulaqron_gate(instr=instructions.vanilla.GateHIns
-     unrecog       line 432  yield self.apply_single_qubit_gate(gate=h_gate, qubit_id=qubit_id)
-     unrecog       line 436  cnot_gate = self._get_simulaqron_gate(instr=instructions.vanilla.CnotI
-     unrecog       line 437  yield self.apply_two_qubit_gate(gate=cnot_gate, qubit_id1=qubit_id, qu
-     unrecog       line 445  ent_id = self.new_ent_id(epr_socket_id=epr_socket_id, remote_node_id=r
-     unrecog       line 450  if create_request.type == RequestType.K:
-     unrecog       line 515  self._handle_epr_response(response=ent_info)
-     other         line 516  self._logger.debug('finished cmd_epr')
+/- cmd_epr, statement by statement (remote-name variable: remote_node_name)
+     guardUnknown  line 406  for remote_node_name, remote_host in self.factory.qnodeos_net.hostDict
+     other         line 413  self._logger.debug(f'Creating EPR with {remote_node_name} on socket {e
+     guardSelf     line 416  if self.name == remote_node_name:
+     guardAdjacent line 420  if not self.factory.is_adjacent(remote_node_name):
+     other         line 426  second_qubit_id = -(1 + qubit_id)
+     cmdNew        line 427  for q_id in [qubit_id, second_qubit_id]:
+     cmdNew        line 427  for q_id in [qubit_id, second_qubit_id]:
+     unrecog       line 433  h_gate = self._get_simulaqron_gate(instr=instructions.vanilla.GateHIns
+     unrecog       line 434  yield self.apply_single_qubit_gate(gate=h_gate, qubit_id=qubit_id)
+     unrecog       line 438  cnot_gate = self._get_simulaqron_gate(instr=instructions.vanilla.CnotI
+     unrecog       line 439  yield self.apply_two_qubit_gate(gate=cnot_gate, qubit_id1=qubit_id, qu
+     unrecog       line 447  ent_id = self.new_ent_id(epr_socket_id=epr_socket_id, remote_node_id=r
+     unrecog       line 452  if create_request.type == RequestType.K:
+     unrecog       line 517  self._handle_epr_response(response=ent_info)
+     other         line 518  self._logger.debug('finished cmd_epr')
 -/
 def cmdEprStmts : List Stmt := [
-  .unrecog, .unrecog, .other, .other, .unrecog, .unrecog,
-  .other, .cmdNew, .cmdNew, .unrecog, .unrecog, .unrecog,
-  .unrecog, .unrecog, .unrecog, .unrecog, .other
+  .guardUnknown, .other, .guardSelf, .guardAdjacent, .other, .cmdNew,
+  .cmdNew, .unrecog, .unrecog, .unrecog, .unrecog, .unrecog,
+  .unrecog, .unrecog, .other
 ]
 
 /- _do_create_epr, every nested simple statement
